@@ -781,25 +781,53 @@ theorem dropWhile_gap_reach (e : Env) : ∀ (items : List Pat) (x y : Nat), Reac
       exact ih _ _ h3
     · simp only [List.dropWhile_cons, hg, if_false]; exact h
 
-theorem predRun_reach (e : Env) : ∀ (items : List Pat) (x y : Nat), Reach e items x y →
-    ∀ i (hi : i < (predRun items).length), memAt (((predRun items)[i]'hi).test e) e.text (x + i) = true := by
+theorem predRun_reach' (e : Env) : ∀ (items : List Pat) (x y : Nat), Reach e items x y →
+    ∀ (i : Nat) (P' : Pred), (predRun items)[i]? = some P' → memAt (P'.test e) e.text (x + i) = true := by
   intro items
   induction items with
-  | nil => intro x y _ i hi; simp [predRun] at hi
+  | nil => intro x y _ i P' hi; simp [predRun] at hi
   | cons p ps ih =>
-    intro x y h i hi
+    intro x y h i P' hi
     cases p with
     | chr P =>
       obtain ⟨st, st', h1, h2, h3⟩ := h
       obtain ⟨s1, s2⟩ := chr_step e P st st' h2
-      simp only [predRun] at hi ⊢
+      simp only [predRun] at hi
       cases i with
-      | zero => simpa [h1] using s1
+      | zero =>
+        simp at hi; subst hi; simpa [h1] using s1
       | succ i =>
-        have := ih _ _ h3 i (by simpa using hi)
+        have := ih _ _ h3 i P' (by simpa using hi)
         rw [s2, h1] at this
         simpa [Nat.add_assoc, Nat.add_comm 1] using this
+    | quant lz lo ub body =>
+      cases body with
+      | chr Q =>
+        obtain ⟨st, st', h1, h2, h3⟩ := h
+        obtain ⟨j, j1, j2, j3, j4⟩ := loop_run e lz lo ub Q st st' h2
+        simp only [predRun] at hi
+        rw [List.getElem?_append] at hi
+        simp only [List.length_replicate] at hi
+        by_cases hlt : i < lo
+        · rw [if_pos hlt, List.getElem?_replicate] at hi
+          simp only [hlt, if_true, Option.some.injEq] at hi
+          subst hi
+          rw [← h1]; exact j4 i (by omega)
+        · rw [if_neg hlt] at hi
+          by_cases hex : ub = some lo
+          · rw [if_pos hex] at hi
+            have hj : j = lo := by have := j2 lo hex; omega
+            have := ih _ _ h3 (i - lo) P' hi
+            rw [j3, h1, hj] at this
+            rw [show x + i = x + lo + (i - lo) by omega]; exact this
+          · rw [if_neg hex] at hi; simp at hi
+      | _ => simp [predRun] at hi
     | _ => simp [predRun] at hi
+
+theorem predRun_reach (e : Env) (items : List Pat) (x y : Nat) (h : Reach e items x y)
+    (i : Nat) (hi : i < (predRun items).length) :
+    memAt (((predRun items)[i]'hi).test e) e.text (x + i) = true :=
+  predRun_reach' e items x y h i _ (List.getElem?_eq_getElem hi)
 
 theorem firstIter_reach (e : Env) (items : List Pat) (x y : Nat) (h : Reach e items x y) :
     ∃ y', Reach e (firstIter items) x y' := by
